@@ -280,9 +280,17 @@ impl GraphWorld {
             Recipe::Map(f, a) => {
                 let f = *f;
                 let k = key.clone();
+                // a node function may own a Var handle and write it (deferred to the end of the stabilise)
+                let write_to: Option<Var<Val>> = match self.prog.alpha.fn_sets_var {
+                    Some((node, var)) if node == i => self.vars.get(var as usize).cloned().flatten(),
+                    _ => None,
+                };
                 self.node(*a).map(move |x: &Val| {
                     enter();
                     log(Ev::Run { key: k.clone(), args: vec![x.clone()] });
+                    if let Some(var) = &write_to {
+                        var.set(Val::I((x.num() + 1).rem_euclid(2)));
+                    }
                     f.apply(x)
                 })
             }
@@ -1261,6 +1269,17 @@ impl World for GraphWorld {
                     let kind = kind.split('(').next().unwrap_or("").to_string();
                     vs.push(v("C04", "C04.panic", format!("{}@{}", kind, p.short_location()), format!("{a:?} panicked at {}: {}", p.short_location(), p.first_line())));
                 }
+                // C03: observers of nodes made by an outdated bind run, and of map-like nodes over them, "report the node
+                // as invalid". A stabilise that panics where the reference ends the round with an in-use observer on an
+                // invalid node did not do that (after seed C03-f). The world is dead afterwards, so advancing the
+                // reference here cannot disturb anything.
+                if *a == Act::Stabilise && self.cfg.is_armed("C03") {
+                    let _ = self.exec_model(a);
+                    let on_invalid: Vec<String> = self.model.obs.iter().filter(|o| o.state == OState::InUse && self.model.nodes.get(&o.key).map_or(false, |n| !n.valid)).map(|o| format!("{:?}", o.key)).collect();
+                    if !on_invalid.is_empty() {
+                        vs.push(v("C03", "C03.panic_instead_of_invalid", "", format!("stabilise panicked at {} ({}) in a round after which the observers on {} must read Err(ObservingInvalid)", p.short_location(), p.first_line(), on_invalid.join(", "))));
+                    }
+                }
                 return vs;
             }
         };
@@ -1378,6 +1397,18 @@ impl World for GraphWorld {
                 }
             }
         }
+        // ... and for writes issued by a node function (`fn_sets_var`): one per logged run of that node, in log order
+        if let (Some(_), Some((node, var))) = (&round, self.prog.alpha.fn_sets_var) {
+            for ev in log.iter() {
+                if let Ev::Run { key: Key::Outer(n), args } = ev {
+                    if *n == node {
+                        if let Some(x) = args.first() {
+                            self.model.set_var(var, (x.num() + 1).rem_euclid(2));
+                        }
+                    }
+                }
+            }
+        }
         if check {
             if self.cfg.is_armed("C11") {
                 for f in self.state.verif_audit() {
@@ -1390,7 +1421,8 @@ impl World for GraphWorld {
                     }
                 }
                 let handler_wrote = (self.prog.alpha.handler_sets_var.is_some() && log.iter().any(|e| matches!(e, Ev::Handler { .. })))
-                    || (self.prog.alpha.obs_cb_sets_var.is_some() && log.iter().any(|e| matches!(e, Ev::ObsChange { .. })));
+                    || (self.prog.alpha.obs_cb_sets_var.is_some() && log.iter().any(|e| matches!(e, Ev::ObsChange { .. })))
+                    || self.prog.alpha.fn_sets_var.map_or(false, |(node, _)| log.iter().any(|e| matches!(e, Ev::Run { key: Key::Outer(n), .. } if *n == node)));
                 if round.is_some() && !handler_wrote && !self.state.is_stable() {
                     vs.push(v("C11", "C11.not_stable_after_stabilise", "", "is_stable() is false right after a stabilise in which no user function wrote a variable".to_string()));
                 }
